@@ -647,6 +647,118 @@ def _subst_clone(n, fn, binding, at):
     return c
 
 
+def _structure(stmts, f, binding, at, assign):
+    """Statements of a helper whose returns sit in tail positions of if-chains -> (cloned statements in which `return e`
+    became assign(e) and the code after an `if (...) return` moved into the else branch, every path assigns?).
+    None when a return sits elsewhere (inside a loop or switch)."""
+    out = []
+    for i, s in enumerate(stmts):
+        if s.k == 'ReturnStmt':
+            v = s.child('value')
+            if v is None:
+                return None
+            out.append(assign(_subst_clone(v, f, binding, at)))
+            return out, True
+        if not any(x.k == 'ReturnStmt' for x in s.walk()):
+            out.append(_subst_clone(s, f, binding, at))
+            continue
+        if s.k != 'IfStmt' or any(r not in ('cond', 'then', 'else') for c_, r in pairs(s) if c_ is not None):
+            return None
+        a = _structure(s.child('then').stmts(), f, binding, at, assign)
+        b = _structure(s.child('else').stmts(), f, binding, at, assign) if s.child('else') is not None else ([], False)
+        if a is None or b is None:
+            return None
+        (tl, tc), (el, ec) = a, b
+        for lst, comp in ((tl, tc), (el, ec)):
+            if not comp:
+                r = _structure(stmts[i + 1:], f, binding, at, assign)
+                if r is None:
+                    return None
+                lst += r[0]
+                comp = r[1]
+            if lst is tl:
+                tc = comp
+            else:
+                ec = comp
+        n = mk_node(f, 'IfStmt', at.l, cfgat=at.id)
+        kids = [(_subst_clone(s.child('cond'), f, binding, at), 'cond')]
+        for lst, role in ((tl, 'then'), (el, 'else')):
+            if not lst and role == 'else':
+                continue
+            comp = mk_node(f, 'CompoundStmt', at.l, cfgat=at.id)
+            set_children(comp, [(x, 'x') for x in lst])
+            kids.append((comp, role))
+        set_children(n, kids)
+        out.append(n)
+        return out, tc and ec
+    return out, False
+
+
+def _inline_structured(f, c, h, binding):
+    """`T v = h(..);`, `x = h(..);` or `return h(..);` with a helper whose returns are structured: the body replaces the
+    statement, each return becoming the initialisation / assignment / return."""
+    body = [x for x in h.body.c if x is not None]
+    up = c.parent
+    while up is not None and up.k in CASTS:
+        up = up.parent
+    top = c
+    while top.parent is not up:
+        top = top.parent
+    if up is None:
+        return False
+    if up.k == 'VarDecl' and top.role == 'init' and up.parent is not None and up.parent.k == 'DeclStmt' and len([x for x in up.parent.c if x is not None]) == 1 \
+            and up.parent.parent is not None and up.parent.parent.k == 'CompoundStmt':
+        stmt = up.parent
+        ty = (up.t or '').replace('const ', '').strip()
+
+        def assign(v):
+            a = mk_node(f, 'BinaryOperator', c.l, op='=', t=ty, cfgat=c.id)
+            ref = mk_node(f, 'DeclRefExpr', c.l, n=up.n, d=up.d, dk='local', t=ty, ct=(up.ct or ty).replace('const ', '').strip(), cfgat=c.id)
+            set_children(a, [(ref, 'lhs'), (v, 'rhs')])
+            return a
+        r = _structure(body, f, binding, c, assign)
+        if r is None or not r[1]:
+            return False
+        setj(up, t=ty, ct=(up.ct or ty).replace('const ', '').strip())
+        set_children(up, [(x, ro) for x, ro in pairs(up) if ro != 'init'])
+        keep = True
+    elif up.k == 'BinaryOperator' and up.op == '=' and top.role == 'rhs' and up.parent is not None and up.parent.k == 'CompoundStmt' and simple_lvalue(strip(up.child('lhs'))):
+        stmt = up
+        lhs = up.child('lhs')
+
+        def assign(v):
+            a = mk_node(f, 'BinaryOperator', c.l, op='=', t=up.t, cfgat=c.id)
+            set_children(a, [(clone_node(lhs, f), 'lhs'), (v, 'rhs')])
+            return a
+        r = _structure(body, f, binding, c, assign)
+        if r is None or not r[1]:
+            return False
+        keep = False
+    elif up.k == 'ReturnStmt' and up.parent is not None and up.parent.k == 'CompoundStmt':
+        stmt = up
+
+        def assign(v):
+            a = mk_node(f, 'ReturnStmt', c.l, cfgat=c.id)
+            set_children(a, [(v, 'value')])
+            return a
+        r = _structure(body, f, binding, c, assign)
+        if r is None or not r[1]:
+            return False
+        keep = False
+    else:
+        return False
+    out = []
+    for ch, role in pairs(stmt.parent):
+        if ch is stmt:
+            if keep:
+                out.append((ch, role))
+            out += [(n_, 'x') for n_ in r[0]]
+        else:
+            out.append((ch, role))
+    set_children(stmt.parent, out)
+    return True
+
+
 def inline_new_helpers(db):
     if not ENABLED or os.environ.get('GDSTK_SA_NO_INLINE') or '__functions__' not in _baseline():
         return 0
@@ -691,6 +803,9 @@ def inline_new_helpers(db):
                     comp.j['cfgat'] = c.id
                     set_children(comp, [(n_, 'x') for n_ in news])
                     replace_child(c.parent, c, comp if len(news) != 1 else news[0])
+                    changed = True
+                    done += 1
+                elif rets and len(rets) > 1 and _inline_structured(f, c, h, binding):
                     changed = True
                     done += 1
                 elif not rets and c.parent.k == 'CompoundStmt':
